@@ -1,7 +1,30 @@
 #!/bin/bash
-# tools/seed_take.sh <worktree> <name> <PROP> : verify a seeded change in its worktree, store it under seeded/<name>, run the check against it.
-WT=$1; N=$2; P=$3
-cd /verif || exit 2
-tools/seed_verify.sh $WT | tail -1
-mkdir -p seeded/$N && cp -r $WT/_seed/. seeded/$N/ && rm -f seeded/$N/demo_with.log seeded/$N/demo_without.log
-tools/seed_run.sh $N $P quick
+# tools/seed_take.sh <ID-n> : confirm a sub-agent's seeded change in its scratch worktree /tmp/seed/<ID-n>
+# (patch applies on a clean checkout, builds, 370 tests pass, demo fails with / passes without the change),
+# store it under /verif/seeded/<ID-n>/ and remove the worktree with its build output.
+N=$1; WT=/tmp/seed/$N; S=$WT/_seed
+[ -f $S/patch.diff ] && [ -f $S/meta.json ] || { echo "$N: no _seed/patch.diff or meta.json"; exit 2; }
+cd $WT || exit 2
+DEMO=$(python3 -c "import json;print(json.load(open('$S/meta.json'))['demo_cmd'])")
+git stash -q 2>/dev/null; git checkout -q -- . ; git stash drop -q 2>/dev/null
+git apply --check $S/patch.diff || { echo "$N: patch does not apply on a clean checkout"; exit 1; }
+( eval "$DEMO" ) > /tmp/seed/$N.demo_clean.log 2>&1; RC_CLEAN=$?
+git apply $S/patch.diff
+cargo build --offline -q -p typeshare-cli --features go,python 2>/tmp/seed/$N.build.log || { echo "$N: build fails"; exit 1; }
+T=$(cargo test --workspace --no-fail-fast --offline --lib --bins --tests 2>&1 | grep -E "^test result" | awk '{p+=$4; f+=$6} END {print p":"f}')
+( eval "$DEMO" ) > /tmp/seed/$N.demo_patched.log 2>&1; RC_PATCHED=$?
+echo "$N: tests passed:failed=$T demo clean rc=$RC_CLEAN patched rc=$RC_PATCHED"
+if [ "$T" = "370:0" ] && [ $RC_CLEAN = 0 ] && [ $RC_PATCHED != 0 ]; then
+  mkdir -p /verif/seeded/$N && cp -r $S/. /verif/seeded/$N/
+  python3 - <<PY
+import json
+p='/verif/seeded/$N/meta.json'; m=json.load(open(p))
+m['confirmed']={'tests':'370 passed, 0 failed with the change','demo_with_change_rc':$RC_PATCHED,'demo_without_change_rc':$RC_CLEAN,
+ 'ran':'tools/seed_take.sh $N (git apply --check on clean checkout; cargo build; cargo test --workspace --lib --bins --tests; demo with / without)'}
+json.dump(m,open(p,'w'),indent=1)
+PY
+  cd /; git -C /repo worktree remove --force $WT; rm -f /tmp/seed/$N.*.log
+  echo "$N: CONFIRMED and stored"
+else
+  echo "$N: NOT confirmed (logs in /tmp/seed/$N.*.log)"; exit 1
+fi
